@@ -65,8 +65,8 @@ CHECKS = {
   "PARTIAL. Pickle round trip of a group of objects sharing one symbolically placed buffer (the object, a second object of the same type, an Int64 array), for every catalogue struct/array type and every hybrid class of the C18 catalogue: the object protocol pickle drives (__reduce_ex__(4), the classes' own __getstate__/__setstate__ or instance __dict__, one memo) is executed in Python over the real classes with solver terms as offsets/capacity/free list; afterwards, for every placement: same value at every field, same offset and size, restored objects share one buffer distinct from the original's, writes through the copy stay inside the copy (frame, z3) and do not reach the original, an allocation in the restored buffer is disjoint (z3) from every restored object (the restored free list is a working allocator state), the restored object can be the source of a copy. The serialiser itself (the C pickle module, NumPy's array pickling, ContextCpu state) runs only in the concrete validation pass and in replays, which use the real pickle.dumps/loads.",
   W_NOTE + " C20: stub S13 (copy.deepcopy = pickle's object protocol with by-value leaves; inconclusive if an xobjects class defined __deepcopy__/__copy__); hybrid classes: the C18 catalogue (nested dressed parts must sit on their fields after unpickling); GPU contexts outside the claim.", W_TECH),
  "C13": (MC, "5/C13",
-  "PARTIAL. The real slice-arithmetic primitives of BufferNumpy and BufferByteArray (update_from_native incl. overlapping same-storage copies, copy_to_native, to_native, update_from_buffer, to_bytearray, to_pointer_arg) and XBuffer.update_from_xbuffer (same context / other context / other buffer kind) are executed on a symbolic byte-container model whose length and content are solver variables; for every capacity, offset, source offset and length with ranges inside both containers a Skolem-position postcondition is proved: exactly the requested bytes change, to exactly the source bytes, lengths unchanged, source untouched, extracted copies are not views. NOT covered: update_from_nplike, to_nplike/to_nparray, scalar.py helpers (NumPy dtype conversion/views are C code outside the technique).",
-  "S6: container model of bytearray / 1-D int8 ndarray slicing (clamping, bytearray length change, ndarray broadcast error, view aliasing), validated each run against the real containers on ~2000 small cases; len/bytearray names in xobjects.context_cpu are replaced for the run.",
+  "The real primitives of BufferNumpy and BufferByteArray (update_from_native incl. overlapping same-storage copies, copy_to_native, to_native, update_from_buffer from bytes-like data and from typed memoryviews, to_bytearray, to_pointer_arg, update_from_nplike with and without dtype conversion, to_nplike / to_nparray for 1-3 axes) and XBuffer.update_from_xbuffer (same context / other context / other buffer kind) are executed on a symbolic byte-container model whose length and content are solver variables; for every capacity, offset, source offset, length, element count and requested shape with ranges inside the containers a Skolem-position postcondition is proved: exactly the requested bytes change, to exactly the source bytes (for NumPy sources: the bytes of the array in the destination dtype, converted once iff the dtypes differ), lengths unchanged, source untouched, extracted copies are not views, typed views are windows on the buffer's own storage of exactly prod(shape)*itemsize bytes at the requested offset. AUXILIARY (concrete, no solver verdict, labelled in the evidence): NumPy's conversion and source-layout handling on the real buffers -- 10x10 dtype pairs x 8 source layouts (C, Fortran, transposed, strided, permuted 3-D, empty, 0-d) x offsets, incl. aliasing of the typed views.",
+  "S6: container model of bytearray / 1-D int8 ndarray slicing (clamping, bytearray length change, ndarray broadcast error, view aliasing), validated each run against the real containers on ~2000 small cases; S16: a NumPy array is (concrete dtype, symbolic element count, opaque content), np.frombuffer a typed window that raises unless it fits, np.prod multiplies proxies, memoryview(x).cast('B') the bytes of x; len/bytearray/memoryview/np/nplike_to_numpy names in xobjects.context_cpu are replaced for the run. scalar.py helpers are compositions of these primitives and are not run separately.",
   "symbolic execution of the real primitives on a symbolic container (uninterpreted content function, Skolem position); z3 unsat per obligation; concrete replay"),
  "C14": (EX, "5/C14",
   "Bounded exhaustive path enumeration of the real sort_classes/topological_sort/sources_from_classes on abstract classes whose dependency edges (none / inner type / declared dependency) are solver variables; every branch on an edge is a solver-decided fork, so each feasible path is one dependency graph inside the bound (<=3 classes quick, <=4 thorough; enumerated root lists and API masks). Per graph: acyclic => no error, each reachable class with an API exactly once, dependencies first, one source block per class; cyclic => ValueError. This is the weakest use of the technique (the solver only prunes and supplies models) and is labelled as such.",
